@@ -20,7 +20,7 @@ import (
 func TestC20(t *testing.T) {
 	r := report.Start("C20")
 	defer r.Finish()
-	nh := r.Pick(8, 64)
+	nh := r.Cases(8, 64)
 	for i := 0; i < nh; i++ {
 		id := fmt.Sprintf("hist/%d", i)
 		if !r.Want(id, i) {
@@ -30,7 +30,7 @@ func TestC20(t *testing.T) {
 	}
 	// directed: governance campaigns on the EVM parameters in quick succession, half of them with a
 	// failing second message (the parameter change is executed and rolled back), restarts after every block
-	ng := r.Pick(6, 48)
+	ng := r.Cases(6, 48)
 	for i := 0; i < ng; i++ {
 		id := fmt.Sprintf("gov/%d", i)
 		if !r.Want(id, nh+i) {
